@@ -3,10 +3,13 @@
   1D/2D Snowing models (SnowModel/EvapFormulas.lean) IS the text GENERATED from utils.py
   (SnowModel/Gen/Evap.lean, regenerated on every run of C20).  For every numeric instance; the only
   non-syntactic step is `4.210 = 4210/10^3 = 421/10^2` (the two files spell the literal differently).
-  The flux formula is not tied here: the hand model uses the double nearest to π as a rational
-  constant (`Evap.piDouble`), the generated text the abstract `HasPi.pi`; equal at Float only.
+  The flux formula is tied through the FORMULA-MODE extraction `Gen.FU.N_w` (pi a parameter); the
+  whole-function text `Gen.vapour_flux` uses the abstract `HasPi.pi` and `Transc.pow κ 2` and is
+  related to it over ℝ in SnowProofs/Lemmas/Evap.lean (`flux_gen_eq`).
 -/
 import SnowModel.EvapFormulas
+import SnowModel.EvapFormulas2D
+import SnowModel.Gen.GenUtils
 import SnowModel.Gen.Evap
 import Mathlib.Tactic.NormNum
 
@@ -25,5 +28,25 @@ theorem vapour_pressure_liquid [HasPi α] (T : α) : Evap.vapourPressureLiquid T
   rw [lit_4210]
 
 theorem vapour_pressure_solid [HasPi α] (T : α) : Evap.vapourPressureSolid T = Gen.vapour_pressure_solid T := rfl
+
+/-! ### formula-mode extraction of utils.py (`Gen.FU`, pi = the parameter `np_pi`): the run models' own
+transcriptions are the SAME expression trees, for every numeric instance (`rfl`) -/
+
+/-- 2D model: liquid curve -/
+theorem pLiquid (T : α) : Evap2D.pLiquid T = Gen.FU.p_liq (T_liq := T) := rfl
+/-- 2D model: ice curve -/
+theorem pSolid (T : α) : Evap2D.pSolid T = Gen.FU.p_sol (T_sol := T) := rfl
+/-- 2D model: Hertz–Knudsen flux with `np.pi` the model's input `pi` -/
+theorem vapourFlux (pi kappa m_water k_B p_vac p_vap T_l T_v : α) :
+    Evap2D.vapourFlux pi kappa m_water k_B p_vac p_vap T_l T_v =
+      Gen.FU.N_w (kappa := kappa) (m_water := m_water) (np_pi := pi) (k_B := k_B) (p_vap := p_vap) (T_l := T_l)
+        (p_vac := p_vac) (T_v := T_v) := rfl
+/-- 0D/1D model: the same three, `np.pi` being the double nearest to π (`Evap.piDouble`) -/
+theorem pLiquid1D (T : α) : Evap.vapourPressureLiquid T = Gen.FU.p_liq (T_liq := T) := rfl
+theorem pSolid1D (T : α) : Evap.vapourPressureSolid T = Gen.FU.p_sol (T_sol := T) := rfl
+theorem vapourFlux1D (kappa m_water k_B p_vac p_vap T_l T_v : α) :
+    Snow.Evap.vapourFlux kappa m_water k_B p_vac p_vap T_l T_v =
+      Gen.FU.N_w (kappa := kappa) (m_water := m_water) (np_pi := Snow.Evap.piDouble) (k_B := k_B) (p_vap := p_vap)
+        (T_l := T_l) (p_vac := p_vac) (T_v := T_v) := rfl
 
 end Snow.GenTie.Evap
